@@ -1,16 +1,30 @@
-use hlverif::case::*;
+use hlverif::gen::*;
 use hlverif::engine::*;
 use hlverif::interp::Opts;
-use hlverif::world::*;
+use std::time::Instant;
 fn main() {
-	let world = WorldSpec { leaves: vec![LeafDecl { ty: LeafTy::R, wraps: 0 }], colls: vec![] };
-	for steps in [
-		vec![(0, Step::GetKey), (0, Step::Acquire { target: TargetRef::Leaf(0), read: false, try_: false })],
-		vec![(0, Step::GetKey), (0, Step::Debug { target: TargetRef::Leaf(0) })],
-		vec![(0, Step::GetKey), (0, Step::PhantomHold{leaf:0, shared:true})],
-	] {
-		let case = SeqCase { world: world.clone(), nthreads: 1, steps, fault: None };
-		let r = run_seq(&case, Opts { quiescent: true, ..Default::default() });
-		println!("{:?}", r.findings.iter().map(|f| (f.step, f.sig.clone())).collect::<Vec<_>>());
+	let cfg = hlverif::props::seq_cfg_general();
+	let mut bytes = vec![0u8; 220];
+	let mut x: u32 = 12345;
+	let n = 3000;
+	let mut cases = Vec::new();
+	let t = Instant::now();
+	for _ in 0..n {
+		for b in bytes.iter_mut() { x = x.wrapping_mul(1664525).wrapping_add(1013904223); *b = (x >> 24) as u8; }
+		cases.push(gen_seq(&mut Src::new(&bytes), &cfg));
 	}
+	println!("gen: {:?} per case", t.elapsed() / n);
+	let t = Instant::now();
+	let mut ops = 0;
+	for c in &cases { let r = run_seq(c, Opts::default()); ops += r.raw_ops; }
+	println!("run: {:?} per case, {} raw ops", t.elapsed() / n, ops);
+	let t = Instant::now();
+	for c in &cases { let _ = hlverif::world::Sem::new(&c.world); }
+	println!("sem: {:?} per case", t.elapsed() / n);
+	let t = Instant::now();
+	for c in &cases { let w = hlverif::world::World::build(&c.world); drop(w); }
+	println!("build: {:?} per case", t.elapsed() / n);
+	let t = Instant::now();
+	for c in &cases { let _ = format!("{c:?}"); }
+	println!("fmt: {:?} per case", t.elapsed() / n);
 }
